@@ -29,6 +29,9 @@ def set_version_targets(rng, tree, st, old_text):
         if f in ("major", "minor", "patch", "num", "inc0", "inc1"):
             s2[f] = st[f] + 1
             out.append(refimpl.render(tree, s2))
+            # the same greater version in a spelling the pattern accepts but does not produce (a leading zero): it has to be announced
+            # the way the pattern renders it
+            out.append(refimpl.render_respelled(tree, s2, rng))
             if st[f] > 1:
                 s2[f] = st[f] - 1
                 out.append(refimpl.render(tree, s2))
